@@ -153,3 +153,45 @@ func structuralNoGo(fn *ssa.Function) (bool, string) {
 	}
 	return true, ""
 }
+
+// structuralRecovers: the function calls the builtin recover() in its OWN body (the language only stops a panic
+// when the deferred function itself calls recover - one call level deeper it returns nil), in a block that
+// dominates every return, i.e. on every path. Together with "the caller defers exactly this function first"
+// (structural defer-first) this decides: a panic raised while serving a connection never leaves its goroutine.
+func structuralRecovers(fn *ssa.Function) (bool, string) {
+	if len(fn.Blocks) == 0 {
+		return false, "no body"
+	}
+	var rb []*ssa.BasicBlock
+	for _, b := range fn.Blocks {
+		for _, in := range b.Instrs {
+			if c, ok := in.(*ssa.Call); ok {
+				if bi, ok := c.Call.Value.(*ssa.Builtin); ok && bi.Name() == "recover" {
+					rb = append(rb, b)
+				}
+			}
+		}
+	}
+	if len(rb) == 0 {
+		return false, "no direct call of recover() in the function body"
+	}
+	for _, b := range fn.Blocks {
+		if b == fn.Recover {
+			continue
+		}
+		for _, in := range b.Instrs {
+			if _, ok := in.(*ssa.Return); ok {
+				dom := false
+				for _, r := range rb {
+					if r.Dominates(b) {
+						dom = true
+					}
+				}
+				if !dom {
+					return false, "a path to a return that does not call recover()"
+				}
+			}
+		}
+	}
+	return true, ""
+}
